@@ -255,4 +255,68 @@ example : parseSel cfgNat none false [1] [.from_ 2, .from_ 2] = .error (.duplica
 example : (parseSel cfgNat none false [1] [.from_ 2, .limit2 7 8]).toOption.map Sel.clauses =
     some [.from_ 2, .limit 8, .offset 7] := by decide
 
+/-! ## [review] additions
+
+[review] Reading guide (what the statements above do and do not say).
+* The header mentions `C01_witness_*` "below": there are none left in this file (the former witnesses became the
+  `C01_regress_*` obligations); no theorem here refutes or proves `C01_full` for the real `parse_sql` / `to_string`.
+* In every instance of `C01_full` proved here `copy = id`, so the two `copy` conjuncts repeat the first one: nothing
+  in C01 is proved about `ASTNode.copy()` (that half of the quantifier rests on C18 `C18_copy_iso` + the oracle).
+* `C01_partial_select`: the "text" is the abstract head + list of clause-rule applications and "print" is the
+  projection `printSkel`; the content is that the canonical clause order `Sel.clauses` passes the guard and rebuilds
+  the record (no strings, keywords or whitespace are involved).
+* `C01_partial_tokens(_compose)`: tokens are TAGGED (`Tk.kw` / `Tk.comma` / `Tk.pay p`), so a payload token can by
+  construction never be a clause keyword or a top-level comma: keyword-colliding identifiers, commas inside a
+  payload (`f(a, b)`, `FROM a, b`) and keywords inside sub-selects are outside what these two theorems speak about
+  (this is the unproved glue G1).
+* `C01_regress_parameter` unfolds the definition of `Lex.parameterToString` (`if v = ['?'] then ['?'] …`), which no
+  correspondence stream evaluates (Driver/Lex.lean calls `variableToString` / `lexVariable` only): it would stay
+  true if `Parameter.get_string` changed; only the round-trip oracle on `SELECT ?` watches the real code. -/
+
+-- [review] non-vacuity of `C01_partial_select_expr_mindsdb` on a non-trivial instance:
+-- `SELECT DISTINCT x0, -x8 FROM x9 WHERE x1 = x2 AND (x3 OR x4) ORDER BY x1 LIMIT x7`
+-- (mindsdb operator ids: 66 a comparison (nonassoc 7), 5 AND, 131 OR, 111 prefix/binary minus).
+def cfgX : Cfg OPM.Expr :=
+  { isOp := fun e => match e with | .bin .. => true | .pre .. => true | .btw .. => true | _ => false,
+    isInt := fun e => match e with | .atom _ => true | _ => false }
+def wToks : List OPM.Tok := [.atom 1, .op 66, .atom 2, .op 5, .lpar, .atom 3, .op 131, .atom 4, .rpar]
+def wExpr : OPM.Expr := .bin 5 (.bin 66 (.atom 1) (.atom 2)) (.paren (.bin 131 (.atom 3) (.atom 4)))
+def wSel : Sel OPM.Expr :=
+  { cte := none, distinct := true, targets := [.atom 0, .pre 111 (.atom 8)], from_ := some (.atom 9), where_ := some wExpr,
+    groupBy := none, having := none, orderBy := some [.atom 1], limit := some (.atom 7), offset := none, mode := false, usng := none }
+
+-- [review] the hypotheses hold (the WHERE payload is what the machine builds from the token list, user parentheses kept) …
+example : OPM.parse Gen.Prec_mindsdb.P wToks [] none = some wExpr ∧ OPM.print Gen.Prec_mindsdb.P wExpr = wToks ∧
+    Good cfgX wSel = true ∧
+    (∀ e ∈ wSel.payloads, OPM.parse Gen.Prec_mindsdb.P (OPM.print Gen.Prec_mindsdb.P e) [] none = some e) ∧
+    wSel.clauses.map (Clause.map (OPM.print Gen.Prec_mindsdb.P)) =
+      [.from_ [.atom 9], .where_ wToks, .orderBy [.atom 1] [], .limit [.atom 7]] := by decide
+
+-- [review] … and the theorem gives the statement-level round trip for it
+example : parseSelT cfgX (fun toks => OPM.parse Gen.Prec_mindsdb.P toks [] none) none true
+    [[.atom 0], [.op 111, .atom 8]] [.from_ [.atom 9], .where_ wToks, .orderBy [.atom 1] [], .limit [.atom 7]] = some wSel :=
+  C01_partial_select_expr_mindsdb cfgX wSel (by decide)
+    (fun e he => ⟨OPM.print Gen.Prec_mindsdb.P e, (by decide : ∀ e ∈ wSel.payloads,
+      OPM.parse Gen.Prec_mindsdb.P (OPM.print Gen.Prec_mindsdb.P e) [] none = some e) e he⟩)
+
+-- [review]
+theorem C01_review_opm_print_ne (P : OPM.Table) (e : OPM.Expr) : OPM.print P e ≠ [] := by
+  cases e <;> simp [OPM.print]
+
+-- [review] the token-level composition with G2 and the non-emptiness side condition DISCHARGED for operator
+-- expressions (`C01_partial_tokens_compose` leaves both as hypotheses and is not instantiated anywhere): from the
+-- flat tagged token sequence of the printed clauses back to the record, for every good record whose payloads the
+-- expression parser produced.
+theorem C01_review_tokens_select_expr (P : OPM.Table) (hP : C03.RoundTrip P) (c : Cfg OPM.Expr) (s : Sel OPM.Expr)
+    (hg : Good c s = true) (h : ∀ e ∈ s.payloads, ∃ toks, OPM.parse P toks [] none = some e) :
+    parseSelTks c (fun toks => OPM.parse P toks [] none) (s.cte.map (OPM.print P)) s.distinct
+      (s.targets.map (OPM.print P)) (printTks (s.clauses.map (Clause.map (OPM.print P)))) = some s :=
+  tokens_roundtrip c _ _ s hg (fun e he => by obtain ⟨t, ht⟩ := h e he; exact hP t e ht)
+    (fun e _ => C01_review_opm_print_ne P e)
+
+-- [review] the flat token sequence of the instance above
+example : printTks (wSel.clauses.map (Clause.map (OPM.print Gen.Prec_mindsdb.P))) =
+    [.kw .from_, .pay (.atom 9), .kw .where_] ++ wToks.map .pay ++ [.kw .orderBy, .pay (.atom 1), .kw .limit, .pay (.atom 7)] := by
+  decide
+
 end MindsVerif.Props.C01
